@@ -1604,6 +1604,15 @@ class LinearOperator(object):
             self.shape[i - num_new_dims] if (size == -1 and i >= num_new_dims) else size
             for i, size in enumerate(shape[:-2])
         )
+        # The _expand_batch methods trust the sizes: reject here what torch.Tensor.expand rejects
+        if (
+            num_new_dims < 0
+            or any(size < 0 for size in batch_shape)
+            or torch.broadcast_shapes(self.batch_shape, batch_shape) != batch_shape
+        ):
+            raise RuntimeError(
+                "Invalid expand arguments {} for a LinearOperator of shape {}.".format(tuple(sizes), self.shape)
+            )
         res = self._expand_batch(batch_shape=batch_shape)
         return res
 
